@@ -35,8 +35,25 @@ async fn fanout_case(client: &Client, log: &EvLog, run: u64, sched: &Value, topi
     let mut pubs: BTreeMap<u64, Option<Pub>> = BTreeMap::new();
     let mut sent: BTreeMap<u64, u64> = BTreeMap::new();
     let mut subs: BTreeMap<u64, Sub> = BTreeMap::new();
+    // the client configuration of the schedule: what the server fans out is plain message frames, batch
+    // frames (batches of one, so that every send leaves at once), compressed payloads, or compressed batches
+    let mode = run % 4;
+    let comp = ["", "", "gzip:fastest", "zstd:fastest"][mode as usize];
+    macro_rules! open_pub {
+        () => {{
+            let mut pb = client.publisher(topic).with_encoder(StringCodec);
+            if let Some((c, _)) = compression(comp) {
+                pb = pb.with_compression(c);
+            }
+            if mode % 2 == 1 {
+                pb = pb.with_batching(selium::batching::BatchConfig::new(1, Duration::from_millis(1)));
+            }
+            pb.open().await?
+        }};
+    }
+    log.emit("config", json!({"batching": mode % 2 == 1, "comp": comp}));
     // publisher 0: sync markers
-    let mut sync_pub = Some(client.publisher(topic).with_encoder(StringCodec).open().await?);
+    let mut sync_pub = Some(open_pub!());
     sent.insert(0, 0);
     macro_rules! publish {
         ($p:expr, $id:expr) => {{
@@ -56,7 +73,7 @@ async fn fanout_case(client: &Client, log: &EvLog, run: u64, sched: &Value, topi
         match op {
             "reg_pub" => {
                 if !pubs.contains_key(&id) {
-                    pubs.insert(id, Some(client.publisher(topic).with_encoder(StringCodec).open().await?));
+                    pubs.insert(id, Some(open_pub!()));
                     sent.insert(id, 0);
                     log.emit("reg", json!({"kind": "pub", "id": id}));
                 }
@@ -65,7 +82,11 @@ async fn fanout_case(client: &Client, log: &EvLog, run: u64, sched: &Value, topi
                 if subs.contains_key(&id) {
                     continue;
                 }
-                let mut stream = client.subscriber(topic).with_decoder(StringCodec).open().await?;
+                let mut sb = client.subscriber(topic).with_decoder(StringCodec);
+                if let Some((_, d)) = compression(comp) {
+                    sb = sb.with_decompression(d);
+                }
+                let mut stream = sb.open().await?;
                 let (gate, mut gate_rx) = watch::channel(false);
                 let (tx, mut rx) = mpsc::unbounded_channel();
                 let reader = tokio::spawn(async move {
@@ -191,6 +212,9 @@ async fn fanout_case(client: &Client, log: &EvLog, run: u64, sched: &Value, topi
     Ok(())
 }
 
+static SLOW: std::sync::atomic::AtomicUsize = std::sync::atomic::AtomicUsize::new(0);
+static DONE: std::sync::atomic::AtomicUsize = std::sync::atomic::AtomicUsize::new(0);
+
 pub async fn cmd_fanout(args: Vec<String>) -> Result<()> {
     let env = setup(&args, "fanout")?;
     let seed: u64 = arg(&args, "--seed").and_then(|s| s.parse().ok()).unwrap_or_else(seed_from_env);
@@ -214,7 +238,18 @@ pub async fn cmd_fanout(args: Vec<String>) -> Result<()> {
                 let run = k as u64 + 1;
                 let topic = format!("/vfan{}/case{}", seed % 1000, run);
                 let clog = EvLog::new(Box::new(std::io::sink()));
-                match tokio::time::timeout(Duration::from_secs(60), fanout_case(&client, &clog, run, &cases[k], &topic)).await {
+                // a change that breaks delivery for a whole class of schedules makes each of them wait for
+                // its time limits: once that has happened often enough the verdicts are in, stop there
+                if SLOW.load(std::sync::atomic::Ordering::SeqCst) >= 40 {
+                    break;
+                }
+                let t0 = std::time::Instant::now();
+                DONE.fetch_add(1, std::sync::atomic::Ordering::SeqCst);
+                let r = tokio::time::timeout(Duration::from_secs(60), fanout_case(&client, &clog, run, &cases[k], &topic)).await;
+                if t0.elapsed() > Duration::from_secs(14) {
+                    SLOW.fetch_add(1, std::sync::atomic::Ordering::SeqCst);
+                }
+                match r {
                     Ok(Ok(())) => {}
                     Ok(Err(e)) => clog.emit("harness_error", json!({"err": e.to_string()})),
                     Err(_) => clog.emit("harness_error", json!({"err": "case did not finish within 60 s"})),
@@ -230,6 +265,6 @@ pub async fn cmd_fanout(args: Vec<String>) -> Result<()> {
     }
     env.log.flush();
     let _ = std::fs::remove_dir_all(&env.certs);
-    println!("{}", json!({"runs": cases.len(), "events": env.log.lines()}));
+    println!("{}", json!({"runs": DONE.load(std::sync::atomic::Ordering::SeqCst), "of": cases.len(), "events": env.log.lines(), "slow_cases": SLOW.load(std::sync::atomic::Ordering::SeqCst)}));
     Ok(())
 }
